@@ -142,6 +142,21 @@ theorem cached_decision (count : Option Nat) (cache : CacheArg) :
     | flag v => cases v <;> simp [cachedDecision]
     | limit c => simp [cachedDecision]
 
+/-- CACHED DECISION over the declared count: the decision is taken on the count the `frame_count`
+    property *resolves* — a POSTPONED count that resolves to INDEFINITE never caches (whatever `cache`
+    is), one that resolves to `n` caches exactly like a renderable declared with `n`. -/
+theorem cached_decision_declared (d : Declared) (cache : CacheArg) :
+    (cachedDecision d.resolve cache = true ↔
+      ∃ n, d.resolve = some n ∧ (cache = .flag true ∨ ∃ c, cache = .limit c ∧ (n : Int) ≤ c)) ∧
+    cachedDecision (Declared.postponed none).resolve cache = false ∧
+    (∀ n, cachedDecision (Declared.postponed (some n)).resolve cache =
+      cachedDecision (Declared.definite n).resolve cache) :=
+  ⟨cached_decision d.resolve cache, rfl, fun _ => rfl⟩
+
+/-- …and that is the decision a constructed iterator carries -/
+theorem cached_decision_initD (d : Declared) (i : Init) (r0 : ρ) (s : St ρ O) (h : initD d i r0 = .ok s) :
+    s.cached = cachedDecision d.resolve i.cache := (initD_resolved d i r0 s h).2
+
 theorem cached_decision_init (i : Init) (r0 : ρ) (s : St ρ O) (h : init i r0 = .ok s) :
     s.cached = cachedDecision i.count i.cache := by
   obtain ⟨_, _, _, _, hs⟩ := init_shape i r0 s h
